@@ -425,8 +425,17 @@ def _evaluate(task):
     findings = []
 
     def finding(kind, stage, why, expr):
-        findings.append({'kind': kind, 'stage': stage, 'why': why, 'query': expr})
+        # F16c (open): compressed data, a selector that designates no subset, a path that raises: the nodes are
+        # filtered before the (empty) loop over the subsets, so the query raises where the uncompressed one is empty
+        flag = False
+        if expr and comp and stage in ('json-eval', 'compressed', 'model-vs-spec', 'selector'):
+            try:
+                flag = select_subsets(parse_path(expr).subset_slice, n_sub) == [] and isinstance(impl.get(expr), str)
+            except Exception:  # noqa
+                flag = False
+        findings.append({'kind': kind, 'stage': stage, 'why': why, 'query': expr, 'empty_selection_on_compressed': flag})
 
+    impl = {}
     # -- the paths that exist: model enumeration vs the implementation's tree
     rng = random.Random(task['seed'])
     if task.get('queries') is None:
@@ -451,7 +460,6 @@ def _evaluate(task):
     exprs = [sel + body for (_, sel, body) in queries]
 
     # -- implementation results
-    impl = {}
     for e in exprs:
         impl[e] = impl_query(msg, e)
     # -- the model
@@ -578,7 +586,8 @@ def excluded(ids):
 
 
 def signature(f, ids):
-    return {'kind': f['kind'], 'stage': f['stage'], 'features': sorted(P.classify(ids)) if ids else []}
+    return {'kind': f['kind'], 'stage': f['stage'], 'features': sorted(P.classify(ids)) if ids else [],
+            'empty_selection_on_compressed': bool(f.get('empty_selection_on_compressed'))}
 
 
 def shrink_query(task, f):
@@ -621,10 +630,11 @@ def shrink_query(task, f):
 
 def report(ctx, task, f, ids, name=None):
     sig = signature(f, ids)
-    try:
-        f = shrink_query(task, f)
-    except Exception:  # noqa
-        pass
+    if not f.get('empty_selection_on_compressed'):
+        try:
+            f = shrink_query(task, f)
+        except Exception:  # noqa
+            pass
     rep = {'ids': ids, 'message_hex': task['b'].hex() if len(task['b']) < 20000 else None, 'file': name,
            'query': f['query'], 'why': f['why'], 'corpus': bool(task.get('corpus')),
            'alt_hex': task['alt'].hex() if task.get('alt') is not None and len(task['alt']) < 20000 else None,
@@ -668,7 +678,7 @@ def absorb(ctx, task, res, ids, tag, name=None):
             ctx.count('bare-id-ordinary')
     done = set()
     for f in res['findings']:
-        k = (f['kind'], f['stage'])
+        k = (f['kind'], f['stage'], bool(f.get('empty_selection_on_compressed')))
         if k in done:
             continue
         done.add(k)
